@@ -521,7 +521,7 @@ struct V : RecursiveASTVisitor<V> {
   Ctx &X;
   Dumper &D;
   bool patternsOnly;
-  json::Array funcs, classes, vars;
+  json::Array funcs, classes, vars, enums;
   std::set<const Decl *> seenF, seenC;
   V(Ctx &X, Dumper &D, bool patternsOnly) : X(X), D(D), patternsOnly(patternsOnly) {}
   bool shouldVisitTemplateInstantiations() const { return !patternsOnly; }
@@ -540,6 +540,22 @@ struct V : RecursiveASTVisitor<V> {
     if (RD->isLambda()) return true;
     if (!seenC.insert(RD).second) return true;
     classes.push_back(D.record(RD));
+    return true;
+  }
+  bool VisitEnumDecl(EnumDecl *ED) {
+    if (!ED->isThisDeclarationADefinition() || !X.inRepo(ED->getLocation())) return true;
+    if (ED->getDeclContext()->isRecord()) return true;   // anonymous enums inside traits classes
+    json::Object O = X.loc(ED->getLocation());
+    O["name"] = X.qualName(ED);
+    json::Array Es;
+    for (const EnumConstantDecl *EC : ED->enumerators()) {
+      json::Object EO;
+      EO["name"] = EC->getNameAsString();
+      EO["v"] = (int64_t)EC->getInitVal().getExtValue();
+      Es.push_back(std::move(EO));
+    }
+    O["enumerators"] = std::move(Es);
+    enums.push_back(std::move(O));
     return true;
   }
   bool VisitVarDecl(VarDecl *VD) {
@@ -570,6 +586,7 @@ static void runDump(Ctx &X, json::Object &Root, bool patternsOnly) {
   Root["functions"] = std::move(v.funcs);
   Root["classes"] = std::move(v.classes);
   Root["vars"] = std::move(v.vars);
+  Root["enums"] = std::move(v.enums);
   Root["types"] = std::move(D.types);
 }
 
